@@ -277,14 +277,19 @@ func deref(v interface{}) interface{} {
 // package-level variable (the generator emits the name as an expression), the
 // value is a struct with Null / Unknown / Value.
 
-type altType struct{ kind string }
+// The type carries a parameter (unit) which its values inherit, like TimeType.Format: a value that was not
+// derived from the schema's type instance reports another type.
+type altType struct {
+	kind string
+	unit string
+}
 
 // AltStringType, AltInt64Type and AltBoolType are the attr.Type values a
 // configuration can name in schema_types.
 var (
-	AltStringType attr.Type = altType{"string"}
-	AltInt64Type  attr.Type = altType{"int64"}
-	AltBoolType   attr.Type = altType{"bool"}
+	AltStringType attr.Type = altType{"string", "unit:text"}
+	AltInt64Type  attr.Type = altType{"int64", "unit:MiB"}
+	AltBoolType   attr.Type = altType{"bool", "unit:flag"}
 )
 
 func (t altType) tf() tftypes.Type {
@@ -297,7 +302,12 @@ func (t altType) tf() tftypes.Type {
 	return tftypes.String
 }
 func (t altType) TerraformType(context.Context) tftypes.Type { return t.tf() }
-func (t altType) String() string                             { return "tfx.Alt(" + t.kind + ")" }
+func (t altType) String() string {
+	if t.unit == "" {
+		return "tfx.Alt(" + t.kind + ", no unit: the value does not stem from the schema's type)"
+	}
+	return "tfx.Alt(" + t.kind + ")"
+}
 func (t altType) Equal(o attr.Type) bool {
 	other, ok := o.(altType)
 	return ok && other == t
@@ -309,7 +319,7 @@ func (t altType) ValueFromTerraform(_ context.Context, in tftypes.Value) (attr.V
 	unknown, null := !in.IsKnown(), in.IsKnown() && in.IsNull()
 	switch t.kind {
 	case "int64":
-		v := AltInt64{Unknown: unknown, Null: null}
+		v := AltInt64{Unknown: unknown, Null: null, Unit: t.unit}
 		if !unknown && !null {
 			var f big.Float
 			if err := in.As(&f); err != nil {
@@ -323,7 +333,7 @@ func (t altType) ValueFromTerraform(_ context.Context, in tftypes.Value) (attr.V
 		}
 		return v, nil
 	case "bool":
-		v := AltBool{Unknown: unknown, Null: null}
+		v := AltBool{Unknown: unknown, Null: null, Unit: t.unit}
 		if !unknown && !null {
 			if err := in.As(&v.Value); err != nil {
 				return nil, err
@@ -331,7 +341,7 @@ func (t altType) ValueFromTerraform(_ context.Context, in tftypes.Value) (attr.V
 		}
 		return v, nil
 	}
-	v := AltString{Unknown: unknown, Null: null}
+	v := AltString{Unknown: unknown, Null: null, Unit: t.unit}
 	if !unknown && !null {
 		if err := in.As(&v.Value); err != nil {
 			return nil, err
@@ -355,45 +365,57 @@ type AltString struct {
 	Unknown bool
 	Null    bool
 	Value   string
+	// Unit is inherited from the type the value was made by.
+	Unit string
 }
 
-func (v AltString) Type(context.Context) attr.Type { return AltStringType }
+func (v AltString) Type(context.Context) attr.Type { return altType{"string", v.Unit} }
 func (v AltString) ToTerraformValue(context.Context) (tftypes.Value, error) {
 	return altTF(tftypes.String, v.Null, v.Unknown, v.Value)
 }
 func (v AltString) Equal(o attr.Value) bool { x, ok := o.(AltString); return ok && x == v }
 func (v AltString) IsNull() bool            { return v.Null }
 func (v AltString) IsUnknown() bool         { return v.Unknown }
-func (v AltString) String() string          { return fmt.Sprintf("AltString(%q,null=%v,unknown=%v)", v.Value, v.Null, v.Unknown) }
+func (v AltString) String() string {
+	return fmt.Sprintf("AltString(%q,null=%v,unknown=%v)", v.Value, v.Null, v.Unknown)
+}
 
 // AltInt64 is the value of AltInt64Type.
 type AltInt64 struct {
 	Unknown bool
 	Null    bool
 	Value   int64
+	// Unit is inherited from the type the value was made by.
+	Unit string
 }
 
-func (v AltInt64) Type(context.Context) attr.Type { return AltInt64Type }
+func (v AltInt64) Type(context.Context) attr.Type { return altType{"int64", v.Unit} }
 func (v AltInt64) ToTerraformValue(context.Context) (tftypes.Value, error) {
 	return altTF(tftypes.Number, v.Null, v.Unknown, new(big.Float).SetPrec(64).SetInt64(v.Value))
 }
 func (v AltInt64) Equal(o attr.Value) bool { x, ok := o.(AltInt64); return ok && x == v }
 func (v AltInt64) IsNull() bool            { return v.Null }
 func (v AltInt64) IsUnknown() bool         { return v.Unknown }
-func (v AltInt64) String() string          { return fmt.Sprintf("AltInt64(%d,null=%v,unknown=%v)", v.Value, v.Null, v.Unknown) }
+func (v AltInt64) String() string {
+	return fmt.Sprintf("AltInt64(%d,null=%v,unknown=%v)", v.Value, v.Null, v.Unknown)
+}
 
 // AltBool is the value of AltBoolType.
 type AltBool struct {
 	Unknown bool
 	Null    bool
 	Value   bool
+	// Unit is inherited from the type the value was made by.
+	Unit string
 }
 
-func (v AltBool) Type(context.Context) attr.Type { return AltBoolType }
+func (v AltBool) Type(context.Context) attr.Type { return altType{"bool", v.Unit} }
 func (v AltBool) ToTerraformValue(context.Context) (tftypes.Value, error) {
 	return altTF(tftypes.Bool, v.Null, v.Unknown, v.Value)
 }
 func (v AltBool) Equal(o attr.Value) bool { x, ok := o.(AltBool); return ok && x == v }
 func (v AltBool) IsNull() bool            { return v.Null }
 func (v AltBool) IsUnknown() bool         { return v.Unknown }
-func (v AltBool) String() string          { return fmt.Sprintf("AltBool(%v,null=%v,unknown=%v)", v.Value, v.Null, v.Unknown) }
+func (v AltBool) String() string {
+	return fmt.Sprintf("AltBool(%v,null=%v,unknown=%v)", v.Value, v.Null, v.Unknown)
+}
